@@ -40,7 +40,13 @@ META = {
             "sort key is a parameter and must be the height of the carried block, C13_inflight_other_key_refuted shows a "
             "pass sorted by endorsed heights leaving a connectable payload in flight), "
             "C13_erase_while_iterating_safe / C13_cleanup_v0_uaf_refuted (iteration over a live container with an "
-            "explicit Uaf outcome). Tie to the code: extracted Vsm model vs the real ValueSortedMap (two "
+            "explicit Uaf outcome). Three-typed relations model (coq/Mempool/RelDefs.v: relations_, vbkblocks_, "
+            "stored maps, in-flight maps; verdicts as step inputs): C13_relations_consistent (every op sequence, no "
+            "contract: the size assertion of cleanUp never fires, relations / connected maps describe the same sets, each "
+            "payload under its own block), C13_relations_disjoint (under the contract: ATV/VTB connected XOR in flight, "
+            "no id twice in or across relations), C13_cleanUp_exact, C13_removeAll_forgets, C13_no_resurrection, and "
+            "C13_vbk_header_both_refuted / C13_resubmit_connected_refuted (the two tolerated deviations as model facts; "
+            "this model is not stepped against the implementation). Tie to the code: extracted Vsm model vs the real ValueSortedMap (two "
             "instantiations) on ALL op sequences up to length 4 (quick) / 5 (thorough) over 16 ops with three "
             "comparator-equal values, and the direct consistency oracle over all mempool views after EVERY line of "
             "generated histories, run on the un-instrumented and on the ASan/UBSan (-O0) build.",
